@@ -42,15 +42,25 @@ Lemma D14_deadlock_missed :
   run_reports_deadlock (fin_of p_D14) = false /\ fin_of p_D14 = RunOk.
 Proof. vm_compute. repeat split; reflexivity. Qed.
 
-(* D5: unparking a thread that is blocked in join makes it runnable although the
-   join notification has not arrived: loom's own assertion fails. R says the
-   program simply finishes. *)
+(* D5, repaired: unparking a thread that is blocked in join used to make it runnable
+   although the join notification had not arrived (loom's own assertion failed). The
+   park token is now kept apart from the thread state: the program finishes, as R says. *)
 Definition p_D5 : prog :=
   mkProg cfg0 [DAtomic 0] [[ISpawn 1; IJoin 1]; [IUnpark 0]].
-Lemma D5_internal_panic :
-  fin_of p_D5 = RunPanic PanicNotified /\
+Lemma D5_repaired :
+  fin_of p_D5 = RunOk /\
   ref_can_deadlock (ref_outcomes false FUEL p_D5) = false /\
   existsb (fun o => match o with OPanic => true | _ => false end) (ref_outcomes false FUEL p_D5) = false.
+Proof. vm_compute. repeat split; reflexivity. Qed.
+
+(* D11, repaired: a park token delivered before the thread blocks on a mutex survives
+   the blocking: main parks after its critical section and finds the token. *)
+Definition p_D11 : prog :=
+  mkProg cfg0 [DAtomic 0; DMutex]
+    [[ISpawn 1; ILock 1; IStore 0 1 SeqCst; IUnlock 1; IPark; IJoin 1];
+     [IUnpark 0; ILock 1; IStore 0 2 SeqCst; IUnlock 1]].
+Lemma D11_repaired :
+  fin_of p_D11 = RunOk /\ ref_can_deadlock (ref_outcomes false FUEL p_D11) = false.
 Proof. vm_compute. repeat split; reflexivity. Qed.
 
 (* D4 (C03): read-modify-write atomicity / coherence. T1: x.store(1); r1 = x.load()
